@@ -86,12 +86,7 @@ Proof.
   destruct (insert_validate d tb [] (map (apply_defaults_from tb 0) rs0)) as [e|] eqn:V; [exists e; reflexivity|].
   exfalso. destruct (insert_validate_none _ _ _ _ V) as [F _]. rewrite Forall_forall in F.
   destruct (F r Hr) as [Hl [_ Hv]]. pose proof (get_table_In _ _ _ G) as [Gin _].
-  assert (FKC : forall fk0, In fk0 (t_fks tb) -> proj_colorder (fk_cols fk0) r = proj (fk_cols fk0) r).
-  { intros fk0 Hfk0. pose proof (std_fk _ _ _ (inv_std _ I) Gin Hfk0) as S. unfold fk_standard in S.
-    apply andb_true_iff in S. destruct S as [S _]. apply andb_true_iff in S. destruct S as [S1 S2].
-    apply proj_colorder_asc; [exact S1|]. intros c Hc. rewrite forallb_forall in S2.
-    specialize (S2 c Hc). apply Nat.ltb_lt in S2. rewrite Hl. exact S2. }
-  destruct (validated_row_has_parents proj_colorder d tb r I Gin FKC Hv fk Hfk HN) as [pt [pr [Gp [Hpr Ek]]]].
+  destruct (validated_row_has_parents proj d tb r I Gin (fun _ _ => eq_refl) Hv fk Hfk HN) as [pt [pr [Gp [Hpr Ek]]]].
   exact (NOP pt pr Gp Hpr Ek).
 Qed.
 
